@@ -30,6 +30,12 @@ GAMMAS = {"0": 0.0, "1/2": 0.5, "1": 1.0, "0.99": 0.99}
 BASES = {"direct": (1000, 2000), "train": (0, 0)}
 
 
+def tol_of(case):
+    """absolute tolerance for gamma = 0.99: 2^-13 relative to the largest reward magnitude of the stream (at least 1)"""
+    mx = max((abs(Fraction(float(s[0]))) for st in case["stream"] for s in st), default=Fraction(0))
+    return TOL * max(Fraction(1), mx)
+
+
 def tag(t, e, E):
     return t * E + e + 1
 
@@ -39,7 +45,7 @@ def untag(x, E):
 
 
 # ------------------------------------------------------------------ tagged raw transitions (direct mode)
-def make_transition(t, step, E, style, dkey="done", okind="vector"):
+def make_transition(t, step, E, style, dkey="done", okind="vector", types=None):
     """raw transition of stream position t exactly as train_off_policy builds it.
     step = [[reward, done] per env]"""
     ACT, NXT = BASES["direct"]
@@ -49,6 +55,12 @@ def make_transition(t, step, E, style, dkey="done", okind="vector"):
     act = (ids + ACT).astype(np.int64)
     rew = np.array([s[0] for s in step], dtype=np.float64)
     done = np.array([bool(s[1]) for s in step])
+    if types == "mixed" and style != "single":
+        # the numeric type of reward / done differs from step to step, as it does between environments and wrappers
+        k = t % 5
+        rew = [rew, rew.astype(np.float32), [float(x) for x in rew],
+               rew.astype(np.int64) if np.all(rew == np.round(rew)) else rew, torch.tensor(rew, dtype=torch.float64)][k]
+        done = [done, [bool(x) for x in done], done.astype(np.int64), done.astype(np.float32), torch.tensor(done)][k]
     if okind == "dict":            # Dict observation space: nested TensorDict for obs / next_obs
         obs = {"a": obs, "b": ids.copy()}
         nxt = {"a": nxt, "b": ids + NXT}
@@ -56,12 +68,17 @@ def make_transition(t, step, E, style, dkey="done", okind="vector"):
         obs = (obs, ids.copy())
         nxt = (nxt, ids + NXT)
     elif okind == "image":         # channels-first image whose pixels all carry the tag
-        obs = np.broadcast_to(ids[:, None, None, None], (E, 1, 2, 2)).copy()
-        nxt = np.broadcast_to((ids + NXT)[:, None, None, None], (E, 1, 2, 2)).copy()
+        obs = np.broadcast_to(ids[:, None, None, None], (E, 1, 2, 3)).copy()      # not square
+        nxt = np.broadcast_to((ids + NXT)[:, None, None, None], (E, 1, 2, 3)).copy()
     if style == "single":          # is_vectorised = False: scalars, then unsqueeze(0)
         assert E == 1
         first = lambda o: {k: v[0] for k, v in o.items()} if isinstance(o, dict) else (tuple(v[0] for v in o) if isinstance(o, tuple) else o[0])
-        tr = Transition(obs=first(obs), action=act[0], reward=float(rew[0]), next_obs=first(nxt), done=bool(done[0]))
+        r0, d0 = float(rew[0]), bool(done[0])
+        if types == "mixed":
+            k = t % 4
+            r0 = [r0, np.float32(r0), np.float64(r0), int(r0) if r0 == int(r0) else r0][k]
+            d0 = [d0, np.bool_(d0), int(d0), float(d0)][k]
+        tr = Transition(obs=first(obs), action=act[0], reward=r0, next_obs=first(nxt), done=d0)
         tr = tr.unsqueeze(0)
     else:
         tr = Transition(obs=obs, action=act, reward=rew, next_obs=nxt, done=done)
@@ -88,7 +105,7 @@ def dec_obs(x, base):
             out.append(0)
         elif r.shape[0] == 2 and r[1] == r[0] + 0.5 and float(r[0]).is_integer() and base < r[0] < base + 1000:
             out.append(int(r[0]) - base)
-        elif r.shape[0] == 4 and np.all(r == r[0]) and float(r[0]).is_integer() and base < r[0] < base + 1000:
+        elif r.shape[0] == 6 and np.all(r == r[0]) and float(r[0]).is_integer() and base < r[0] < base + 1000:
             out.append(int(r[0]) - base)        # image: every pixel carries the tag
         else:
             out.append(BAD)
@@ -288,6 +305,27 @@ class C10(vlib.Driver):
                     cases.append({"kind": "direct", "n": n, "gamma": "1/2", "cap": 2 + (sum(bits) + L) % 2, "E": 2,
                                   "style": "vector", "stream": stream, "every": 1,
                                   "okind": ["vector", "tuple", "image", "dict"][(sum(bits) + n) % 4]})
+        # round 3: numeric types that differ from step to step, numpy-typed hyperparameters, extreme but exactly representable
+        # magnitudes, clear() of both buffers at every position of a short stream, a raising call in the middle of a stream
+        combos = [(E, n) for E in (1, 2) for n in (1, 2, 3)]
+        for ci, (E, n) in enumerate(combos):
+            for L in ([5, 6] if tier == "quick" else [5, 6, 8]):
+                for clear_at in range(0, L + 0):
+                    for variant in range(2 if tier == "quick" else 4):
+                        g = ["1/2", "1", "0", "0.99"][(clear_at + variant + ci) % 4]
+                        sc = [0, 30, -20, 12][(clear_at + variant) % 4]
+                        stream = [[[((t * 3 + e * 5 + variant) % 9 - 4) * 0.25 * 2.0 ** sc if ((t + e + variant) % 4) else 0.0,
+                                    1 if rng.random() < 0.3 else 0] for e in range(E)] for t in range(L)]
+                        c = {"kind": "direct", "n": n, "gamma": g, "cap": [E, E + 1, 2 * E + 1][(clear_at + ci) % 3], "E": E,
+                             "style": "single" if (E == 1 and (clear_at + variant) % 2) else "vector", "stream": stream, "every": 1,
+                             "types": "mixed", "okind": ["vector", "image", "dict", "tuple"][(clear_at + ci) % 4],
+                             "ctor": (["npf32", "npf64", "kw"][(clear_at + variant) % 3] if g not in ("0", "1")
+                                      else ["int", "npf64", "pos"][(clear_at + variant) % 3])}
+                        if variant % 2 == 0:
+                            c["clear_at"] = clear_at
+                        else:
+                            c["probe_at"] = clear_at
+                        cases.append(c)
         # defaults of the constructor (n_step=3, gamma=0.99), single-env style with nested observations
         for i in range(12 if tier == "quick" else 60):
             L = rng.randint(3, 9)
@@ -307,15 +345,16 @@ class C10(vlib.Driver):
             stream = [[[rng.randint(-16, 16) / 4.0, 1 if rng.random() < p else 0] for _ in range(E)] for _ in range(L)]
             # populations / generations: env.reset() between agent turns while the same n-step buffer keeps being fed
             P, G = [(1, 1), (2, 1), (1, 2), (3, 1), (2, 2)][i % 5]
-            if P * G > 1:
+            C = 2 if i % 4 == 3 else 1
+            if P * G * C > 1:
                 S = rng.randint(max(2, n - 1), n + 3)
-                L = P * G * S
+                L = P * G * C * S
                 stream = [[[rng.randint(-16, 16) / 4.0, 1 if rng.random() < p else 0] for _ in range(E)] for _ in range(L)]
             # the four sampling sites of the loop: learn_step > num_envs or not, prioritised 1-step buffer or not
             cases.append({"kind": "train", "n": n, "gamma": g, "cap": cap, "E": E, "style": "vector", "stream": stream,
                           "batch": rng.randint(1, 3), "seed": rng.randint(0, 10 ** 6), "every": 1,
                           "learn_step": 1 if i % 2 == 0 else E + 1, "per": (i // 2) % 2 == 1, "pop": P, "gens": G,
-                          "plain": E == 1 and i % 3 == 0})       # plain = environment without num_envs (is_vectorised False)
+                          "plain": E == 1 and i % 3 == 0, "calls": C})       # plain = environment without num_envs (is_vectorised False)
         return cases
 
     # ---------- implementation
@@ -325,20 +364,38 @@ class C10(vlib.Driver):
     def run_direct(self, case):
         n, cap, E = case["n"], case["cap"], case["E"]
         ctor = case.get("ctor", "kw")
+        g = GAMMAS[case["gamma"]]
         if ctor == "pos":              # the way the test-suite builds it
-            nbuf = MultiStepReplayBuffer(cap, n, GAMMAS[case["gamma"]], "cpu")
+            nbuf = MultiStepReplayBuffer(cap, n, g, "cpu")
         elif ctor == "default":        # defaults of the constructor: n_step=3, gamma=0.99
             assert n == 3 and case["gamma"] == "0.99"
             nbuf = MultiStepReplayBuffer(max_size=cap)
+        elif ctor == "npf32":          # hyperparameters that arrive as numpy scalars (e.g. after a mutation / from a config array)
+            nbuf = MultiStepReplayBuffer(max_size=cap, n_step=n, gamma=np.float32(g))   # (a numpy n_step is refused by deque(maxlen=...): TypeError at construction)
+        elif ctor == "npf64":
+            nbuf = MultiStepReplayBuffer(max_size=cap, n_step=n, gamma=np.float64(g))
+        elif ctor == "int":            # gamma given as a Python int
+            assert g in (0.0, 1.0)
+            nbuf = MultiStepReplayBuffer(max_size=cap, n_step=n, gamma=int(g))
         else:                          # the way benchmarking/benchmarking_rainbow.py builds it
-            nbuf = MultiStepReplayBuffer(max_size=cap, n_step=n, gamma=GAMMAS[case["gamma"]], device="cpu")
+            nbuf = MultiStepReplayBuffer(max_size=cap, n_step=n, gamma=g, device="cpu")
         mem = ReplayBuffer(max_size=cap, device="cpu")
         every = case.get("every", 1)
         dkey = case.get("dkey", "done")
-        trace = []
+        clear_at, probe_at = case.get("clear_at"), case.get("probe_at")
+        trace, handed, probes = [], [], []
+        clear_all = False
         L = len(case["stream"])
+        flat = lambda td: {k: np.asarray(v, dtype=np.float64).reshape(-1).tolist() for k, v in td.flatten_keys().items()}
         for t, step in enumerate(case["stream"]):
-            td = make_transition(t, step, E, case["style"], dkey, case.get("okind", "vector"))
+            if clear_at is not None and t == clear_at:
+                before = len(nbuf.n_step_buffer)
+                nbuf.clear()
+                mem.clear()
+                # does clear() keep the deque of raw transitions (the tree) or empty it? observed, given to the model
+                clear_all = before > 0 and len(nbuf.n_step_buffer) == 0
+            td = make_transition(t, step, E, case["style"], dkey, case.get("okind", "vector"), case.get("types"))
+            handed.append((td, flat(td)))
             # --- the pairing of train_off_policy
             one = nbuf.add(td)
             if one is not None:
@@ -352,6 +409,17 @@ class C10(vlib.Driver):
             else:
                 rec["nrows"] = rec["mrows"] = None
             trace.append(rec)
+            if probe_at is not None and t == probe_at and nbuf.storage is not None:
+                # a call that raises (index beyond the storage), caught by the caller, after which the buffers are used further
+                for bad in (torch.tensor([cap + 2]), torch.tensor([[cap]])):
+                    try:
+                        nbuf.sample_from_indices(bad)
+                        probes.append("returned")
+                    except Exception as e:
+                        probes.append(type(e).__name__)
+        # what was handed to add() must still hold the caller's values (shapes may have been normalised)
+        modified = [t for t, (td, before) in enumerate(handed) if flat(td) != before]
+        out = {"trace": trace, "actions": None, "from_indices": None, "args_modified": modified, "probes": probes, "clear_all": clear_all}
         # sample_from_indices returns the stored rows at the given indices (same indices for both buffers)
         if len(mem) >= 1 and len(nbuf) == len(mem):
             idx = torch.tensor(list(range(len(mem)))[::-1])
@@ -361,13 +429,16 @@ class C10(vlib.Driver):
             # (the latter is what PrioritizedReplayBuffer.sample reports as idxs)
             from agilerl.components.sampler import Sampler
             smp = Sampler(memory=nbuf)
-            flat = smp.sample(idx)
-            col = smp.sample(idx.unsqueeze(1))
-            extra = {"idx": idx.tolist(),
-                     "flat": {"shape": list(flat.batch_size), "rows": decode_rows(flat, "direct", dkey)},
-                     "col": {"shape": list(col.batch_size), "rows": decode_rows(col, "direct", dkey) if list(col.batch_size) == [len(idx)] else None}}
-            return {"trace": trace, "actions": None, "from_indices": extra}
-        return {"trace": trace, "actions": None, "from_indices": None}
+            fl = smp.sample(idx)
+            colidx = idx.unsqueeze(1).clone()
+            col = smp.sample(colidx)
+            out["idx_modified"] = (list(colidx.shape) != [len(idx), 1] or colidx.reshape(-1).tolist() != idx.tolist()
+                                   or idx.tolist() != list(range(len(mem)))[::-1])
+            out["from_indices"] = {"idx": idx.tolist(),
+                                   "flat": {"shape": list(fl.batch_size), "rows": decode_rows(fl, "direct", dkey)},
+                                   "col": {"shape": list(col.batch_size),
+                                           "rows": decode_rows(col, "direct", dkey) if list(col.batch_size) == [len(idx)] else None}}
+        return out
 
     def run_train(self, case):
         from agilerl.algorithms.dqn_rainbow import RainbowDQN
@@ -385,9 +456,9 @@ class C10(vlib.Driver):
         else:
             mem = ReplayBuffer(max_size=cap)
         snaps, samples = {}, {}
-        P, G = case.get("pop", 1), case.get("gens", 1)
-        assert L % (P * G) == 0
-        S = L // (P * G)               # environment steps per agent turn
+        P, G, C = case.get("pop", 1), case.get("gens", 1), case.get("calls", 1)
+        assert L % (P * G * C) == 0
+        S = L // (P * G * C)           # environment steps per agent turn
 
         def snap(t):           # buffers after the first t additions (first photograph wins)
             if t in snaps:
@@ -418,12 +489,13 @@ class C10(vlib.Driver):
             agent.test = (lambda *a, _ag=agent, **k: (_ag.fitness.append(0.0) or 0.0))     # evaluation does not touch the buffers
             pop.append(agent)
         with contextlib.redirect_stdout(io.StringIO()), contextlib.redirect_stderr(io.StringIO()):
-            train_off_policy(env, "script", "RainbowDQN", pop, mem, max_steps=G * S * E, evo_steps=S * E,
-                             eval_steps=1, eval_loop=1, n_step=True, per=per, n_step_memory=nbuf, verbose=False)
+            for call in range(C):      # the training function called again on what it returned, same buffers
+                pop, _ = train_off_policy(env, "script", "RainbowDQN", pop, mem, max_steps=(call + 1) * G * S * E, evo_steps=S * E,
+                                          eval_steps=1, eval_loop=1, n_step=True, per=per, n_step_memory=nbuf, verbose=False)
         snap(L)
         if env.t != L or sorted(snaps) != list(range(1, L + 1)):
             raise RuntimeError(f"training loop made {env.t} environment steps (expected {L}); snapshots {sorted(snaps)}")
-        want_resets = [j * S for j in range(1, P * G)]
+        want_resets = [j * S for j in range(1, P * G * C)]
         if [r[0] for r in env.reset_info] != want_resets:
             raise RuntimeError(f"env.reset() seen at positions {[r[0] for r in env.reset_info]}, expected {want_resets}")
         trace = []
@@ -469,7 +541,7 @@ class C10(vlib.Driver):
                 smp = ("(Some ([" + "; ".join(map(str, s["idx"])) + "], [" + "; ".join(cq_orow(r) for r in s["n"]) + "], ["
                        + "; ".join(cq_orow(r) for r in s["m"]) + "]))")
             ol.append(f"(O {ret} {rec['nlen']} {rec['mlen']} {cq_rows(rec['nrows'])} {cq_rows(rec['mrows'])} {smp})")
-        tol = coq_Q(TOL) if case["gamma"] == "0.99" else "0%Q"
+        tol = coq_Q(tol_of(case)) if case["gamma"] == "0.99" else "0%Q"
         nl = lambda l: "[" + "; ".join(str(int(x)) for x in l) + "]"
         extra = ""
         fi = obs.get("from_indices")
@@ -492,6 +564,16 @@ class C10(vlib.Driver):
                 evs.append(f"Step {x}")
             return (f"(check_run_ev {case['n']} {case['cap']} {coq_Q(GAMMAS[case['gamma']])} {tol} "
                     f"[{'; '.join(evs)}] [{'; '.join(ol)}]){extra}")
+        if case.get("clear_at") is not None:
+            ops = []
+            for t, x in enumerate(xs):
+                if t == case["clear_at"]:
+                    ops.append("OClearAll" if obs.get("clear_all") else "OClear")
+                ops.append(f"OStep {x}")
+            # the rows of the final Sampler probes are compared by the oracle only (check_from_indices models a run without clear)
+            extra_ops = "".join(f" && shape_ok {nl(sm['ishape'])} {nl(sm['nshape'])}" for sm in [] )
+            return (f"(check_run_op {case['n']} {case['cap']} {coq_Q(GAMMAS[case['gamma']])} {tol} "
+                    f"[{'; '.join(ops)}] [{'; '.join(ol)}]){extra_ops}")
         return (f"(check_run {case['n']} {case['cap']} {coq_Q(GAMMAS[case['gamma']])} {tol} "
                 f"[{'; '.join(xs)}] [{'; '.join(ol)}]){extra}")
 
@@ -507,10 +589,12 @@ class C10(vlib.Driver):
         rew = lambda t, e: Fraction(cells[t][e][2])
         raw = lambda t, e: [cells[t][e][0], cells[t][e][1], cells[t][e][2], cells[t][e][3], 1.0 if cells[t][e][4] else 0.0]
         nx_last = {cells[t][e][3]: (t, e) for t in range(len(cells)) for e in range(E)}     # next-obs tag -> (step, env)
+        clear_at = case.get("clear_at")
         resets = obs.get("resets") or []
         bounds = sorted(t for t, _ in resets)                 # env.reset() was called before these stream positions
         rollout = lambda t: sum(1 for b in bounds if b <= t)  # which agent turn a stream position belongs to
-        cleared = sorted(t for t, cl in resets if cl)         # resets at which the deque was seen empty afterwards
+        cleared = sorted([t for t, cl in resets if cl]        # resets at which the deque was seen empty afterwards
+                         + ([clear_at] if obs.get("clear_all") and clear_at else []))
         span = []
 
         def windows_done(now):
@@ -523,8 +607,10 @@ class C10(vlib.Driver):
                 out_ += list(range(a, max(a, b - n + 1)))
             return out_
 
+        tolv = tol_of(case)
+
         def close(a, b):
-            return a == b if exact else abs(a - b) <= TOL
+            return a == b if exact else abs(a - b) <= tolv
 
         def check_row(row, where, now):
             """row of the n-step buffer; now = number of raw transitions seen so far"""
@@ -578,12 +664,15 @@ class C10(vlib.Driver):
         for t, rec in enumerate(obs["trace"]):
             now = t + 1
             wins = windows_done(now)                       # windows completed so far
+            if clear_at is not None and t >= clear_at:     # both buffers were cleared before step clear_at: only windows
+                wins = [k for k in wins if k + n - 1 >= clear_at]      # completed afterwards are held
             cnt = len(wins)
             # returned 1-step transition
             if rec["ret"] is not None:
                 ret = rec["ret"][0]
-                if (ret is None) != (now < n):
-                    return out + span + [Violation("returned", f"nstep:returned:{site}", f"step {t}: add returned {'None' if ret is None else 'a transition'} with {now} transitions seen, n={n}")]
+                since = now - max([b for b in cleared if b <= t] + [0])      # transitions seen since the deque was last emptied
+                if (ret is None) != (since < n):
+                    return out + span + [Violation("returned", f"nstep:returned:{site}", f"step {t}: add returned {'None' if ret is None else 'a transition'} with {since} transitions in the window, n={n}")]
                 if ret is not None:
                     k = now - n
                     want = [raw(k, e) for e in range(E)]
@@ -627,6 +716,12 @@ class C10(vlib.Driver):
                     if rec["nrows"] is not None and (nr != rec["nrows"][s["idx"][j]] or mr != rec["mrows"][s["idx"][j]]):
                         return out + span + [Violation("sample", f"nstep:sample-from-indices:{site}",
                                           f"step {t}: batch row {j} = {nr} / {mr} but storage[{s['idx'][j]}] = {rec['nrows'][s['idx'][j]]} / {rec['mrows'][s['idx'][j]]}")]
+        if obs.get("args_modified"):
+            return out + span + [Violation("args", f"nstep:caller-transition-modified:{site}",
+                                           f"the transitions handed to n_step_memory.add at steps {obs['args_modified']} no longer hold the values the caller put in")]
+        if obs.get("idx_modified"):
+            return out + span + [Violation("args", f"nstep:caller-indices-modified:{site}",
+                                           "the index tensor handed to Sampler(n_step_memory).sample / sample_from_indices was changed in place")]
         fi = obs.get("from_indices")
         if fi:
             last = obs["trace"][-1]
@@ -667,7 +762,7 @@ class C10(vlib.Driver):
         return f
 
     def key(self, case):
-        k = {x: case.get(x) for x in ("kind", "n", "gamma", "cap", "E", "stream", "learn_step", "per", "pop", "gens", "okind", "dkey", "ctor", "style", "plain")}
+        k = {x: case.get(x) for x in ("kind", "n", "gamma", "cap", "E", "stream", "learn_step", "per", "pop", "gens", "okind", "dkey", "ctor", "style", "plain", "types", "clear_at", "probe_at", "calls")}
         return super().key(k)
 
     def nontrivial(self, case, obs):
@@ -676,8 +771,17 @@ class C10(vlib.Driver):
 
     def classify(self, case, obs):
         labs = [f"kind={case['kind']}", f"n={case['n']}", f"gamma={case['gamma']}", f"envs={case['E']}", f"cap={case['cap']}",
-                f"style={case['style']}", f"done-key={case.get('dkey', 'done')}", f"obs={case.get('okind', 'vector')}", f"ctor={case.get('ctor', 'kw')}", f"cap{'=' if case['cap'] == case['E'] else ('<' if case['cap'] < case['E'] else '>')}envs", f"len={len(case['stream']) if len(case['stream']) <= 8 else '>8'}"]
+                f"style={case['style']}", f"done-key={case.get('dkey', 'done')}", f"obs={case.get('okind', 'vector')}", f"ctor={case.get('ctor', 'kw')}", f"types={case.get('types', 'uniform')}", f"cap{'=' if case['cap'] == case['E'] else ('<' if case['cap'] < case['E'] else '>')}envs", f"len={len(case['stream']) if len(case['stream']) <= 8 else '>8'}"]
+        if case.get("clear_at") is not None:
+            labs.append("clear:" + ("before-first-window" if case["clear_at"] < case["n"] else "with-full-deque"))
+        if obs.get("probes"):
+            labs.append("raising-call-then-further-use:" + "/".join(sorted(set(obs["probes"]))))
+        mx = max((abs(s_[0]) for st in case["stream"] for s_ in st), default=0)
+        labs.append("reward-magnitude:" + ("huge" if mx > 1e6 else ("tiny" if 0 < mx < 1e-3 else "moderate")))
+        if any(all(s_[0] == 0 for s_ in st) for st in case["stream"][1:]):
+            labs.append("all-zero-reward-step")
         if case["kind"] == "train":
+            labs.append(f"train-calls={case.get('calls', 1)}")
             labs.append(f"train-pop={case.get('pop', 1)}:gens={case.get('gens', 1)}")
             labs.append("train-env=" + ("plain" if case.get("plain") else "vectorised"))
             for t, cl in (obs.get("resets") or []):
